@@ -276,6 +276,7 @@ pub fn read_oracle(store: &Store, bank: &Bank, clock: SimClock) -> Result<Oracle
             let lim: i128 = 1i128 << 79;
             if !vr.integer_only && vr.rate.is_some() && (s.value >= lim || s.value < -lim || s.std_dev >= lim || s.std_dev < -lim) {
                 // the raw 1e18-scaled value must fit the 80-bit integer part before it is scaled
+                if std::env::var("MFISIM_DEBUG_REF").is_ok() { eprintln!("ref: raw out of range value={} std={}", s.value, s.std_dev); }
                 return Err(OracleBad::OutOfRange);
             }
             let rate = vr.rate.clone().unwrap_or_else(|| qi(1));
@@ -285,6 +286,7 @@ pub fn read_oracle(store: &Store, bank: &Bank, clock: SimClock) -> Result<Oracle
             let es = if vr.rate.is_some() { qi(s.std_dev).abs() * &vr.d_r + qi(1) } else { Q::zero() };
             // the adjusted value is then converted like any Switchboard value (must fit 80 bits)
             if v.abs() >= qi(lim) - &ev || sd.abs() >= qi(lim) - &es {
+                if std::env::var("MFISIM_DEBUG_REF").is_ok() { eprintln!("ref: adjusted out of range value={} v={} ev={} rate={}", s.value, v, ev, rate); }
                 return Err(OracleBad::OutOfRange);
             }
             let pp = PricePair {
